@@ -29,8 +29,8 @@ NPROC = os.cpu_count() or 16
 
 TIERS = {
     # explore: list of (first worker id, workers, runs per worker, concurrency bias %, restart-before-run %)
-    "quick": dict(explore=[(0, 10, 3000, 30, 75), (50, 1, 2000, 30, 10), (60, 1, 2000, 30, 1), (100, 4, 1400, 90, 75)], seconds_cap=90, sweeps=1, hash_orders=8, determinism_runs=150, miri_seeds=0, max_minimise=3, fresh_sample=48, hot_keys=2),
-    "thorough": dict(explore=[(0, 10, 3000, 30, 75), (50, 1, 2000, 30, 10), (60, 1, 2000, 30, 1), (100, 4, 1400, 90, 75), (1000, 10, 40000, 30, 75), (1050, 1, 30000, 30, 10), (1060, 1, 30000, 30, 1), (2000, 4, 12000, 90, 75)], seconds_cap=540, sweeps=8, hash_orders=64, determinism_runs=400, miri_seeds=16, max_minimise=6, fresh_sample=256, hot_keys=8),
+    "quick": dict(explore=[(0, 10, 3000, 30, 75), (50, 1, 2000, 30, 10), (60, 1, 2000, 30, 1), (100, 4, 1400, 90, 75)], seconds_cap=90, sweeps=1, hash_orders=8, determinism_runs=150, miri_seeds=0, max_minimise=3, fresh_sample=48, hot_keys=2, stress=(300, 4, 12)),
+    "thorough": dict(explore=[(0, 10, 3000, 30, 75), (50, 1, 2000, 30, 10), (60, 1, 2000, 30, 1), (100, 4, 1400, 90, 75), (1000, 10, 40000, 30, 75), (1050, 1, 30000, 30, 10), (1060, 1, 30000, 30, 1), (2000, 4, 12000, 90, 75)], seconds_cap=540, sweeps=8, hash_orders=64, determinism_runs=400, miri_seeds=16, max_minimise=6, fresh_sample=256, hot_keys=8, stress=(300, 8, 150)),
 }
 
 
@@ -161,8 +161,25 @@ def abort_class(reason):
     return "other"
 
 
-def shows(sim, text, viol):
-    """Does replaying `text` in a fresh process show violation `viol`? Returns (bool, info)."""
+def shows(sim, text, viol, tries=None):
+    """Does replaying `text` in a fresh process show violation `viol`? Returns (bool, info).
+    A script whose threads are scheduled by the OS (policy=os) is tried several times."""
+    if "policy=os" in text:
+        n = tries or OS_TRIES[0]
+        last = (False, {})
+        for k in range(n):
+            last = shows_once(sim, text, viol)
+            if last[0]:
+                last[1]["os_tries"] = k + 1
+                return last
+        return last
+    return shows_once(sim, text, viol)
+
+
+OS_TRIES = [10]
+
+
+def shows_once(sim, text, viol):
     ob = viol["obligation"]
     want = abort_class(viol["detail"]) if ob == "P" else None
     res = sim.replay(text, watchdog=6 if want == "watchdog" else 30)
@@ -245,6 +262,8 @@ def minimise(sim, text, viol, max_replays=400, seconds=75):
 
 def minimise_inner(sim, text, viol, max_replays):
     runs = parse_script(text)
+    if any(r["attrs"].get("policy") == "os" for r in runs):
+        return minimise_os(sim, runs, viol)
     if viol["obligation"] == "P" and abort_class(viol["detail"]) == "watchdog":
         max_replays = 14  # every reproducing candidate costs a watchdog period
     budget = [max_replays]
@@ -409,6 +428,44 @@ def minimise_inner(sim, text, viol, max_replays):
     return None, None, original_ops, original_ops
 
 
+def minimise_os(sim, runs, viol):
+    """Histories whose threads the OS schedules: every candidate is tried several times."""
+    n0 = count_ops(runs)
+    budget = [60]
+
+    def ok(c):
+        return bool(c) and shows(sim, render_script(c), viol, tries=6)[0]
+
+    if len(runs) > 1:
+        last = [dict(runs[-1], attrs=dict(runs[-1]["attrs"], reset="1"))]
+        if ok(last):
+            runs = last
+        else:
+            runs = ddmin(runs, ok, budget)
+    items = [(ri, oi) for ri, r in enumerate(runs) for oi in range(len(r["ops"]))]
+
+    def build(sel):
+        keep = set(sel)
+        out = []
+        for ri, r in enumerate(runs):
+            ops = [op for oi, op in enumerate(r["ops"]) if (ri, oi) in keep]
+            if ops:
+                out.append({"attrs": dict(r["attrs"]), "ops": ops})
+        return out
+
+    if len(items) > 1:
+        items = ddmin(items, lambda sel: ok(build(sel)), budget)
+        runs = build(items)
+    # is it a race at all? the same operations one thread after the other
+    seq = [{"attrs": dict(r["attrs"], policy="seq", sched="0"), "ops": r["ops"]} for r in runs]
+    if shows_once(sim, render_script(seq), viol)[0]:
+        runs = seq
+    good, info = shows(sim, render_script(runs), viol, tries=20)
+    if good:
+        return render_script(runs), info, n0, count_ops(runs)
+    return None, None, n0, n0
+
+
 def classify(viol, text, info):
     """Refine the obligation label from what the minimised history looks like."""
     ob = viol["obligation"]
@@ -532,6 +589,11 @@ def run_check(tier, seed):
             out = os.path.join(work, "explore_%d.json" % w)
             jobs.append(("explore%d" % w, [BIN, "explore", "--seed", str(seed), "--worker", str(w), "--runs", str(runs), "--seconds", str(cfg["seconds_cap"]), "--conc", str(conc), "--reset-pct", str(rpct), "--sample-fresh", str(cfg["fresh_sample"]), "--watchdog", "20", "--out", out], out))
             explore_ids.append(w)
+    # stress sub-check: no baton, the OS schedules the threads (reaches lock-free, allocation-free races)
+    (sw0, snw, ssecs) = cfg["stress"]
+    for w in range(sw0, sw0 + snw):
+        out = os.path.join(work, "stress_%d.json" % w)
+        jobs.append(("stress%d" % w, [BIN, "explore", "--stress", "--seed", str(seed), "--worker", str(w), "--runs", "10000000", "--seconds", str(ssecs), "--sample-fresh", "0", "--watchdog", "20", "--out", out], out))
     # determinism self-check: two extra copies of worker 0 (prefix of its runs), digests compared
     det_outs = []
     for k in range(2):
@@ -540,6 +602,13 @@ def run_check(tier, seed):
         jobs.append(("det%d" % k, [BIN, "explore", "--seed", str(seed), "--worker", "0", "--runs", str(cfg["determinism_runs"]), "--digest", "--out", os.path.join(work, "det_%d.json" % k)], out))
 
     # run everything, NPROC at a time, longest first
+    def job_rank(j):
+        n = j[0]
+        for i, pre in enumerate(("sweep", "hotkey", "explore", "stress", "det", "hashorder")):
+            if n.startswith(pre):
+                return i
+        return 9
+    jobs.sort(key=job_rank)
     pending = list(jobs)
     running = []
     results = {}
@@ -589,7 +658,11 @@ def run_check(tier, seed):
             continue
         if d.get("harness_error"):
             harness.append("%s: %s" % (name, d["harness_error"]))
-        if d["mode"] == "explore":
+        if d["mode"] == "explore" and name.startswith("stress"):
+            STRESS["workers"].append(d)
+            for v in d["violations"]:
+                cands.append({"obligation": v["obligation"], "key": v["key"], "detail": v["detail"], "history": v["history"], "source": "stress worker %d (threads scheduled by the OS)" % d["worker"]})
+        elif d["mode"] == "explore":
             explore.append(d)
             for v in d["violations"]:
                 cands.append({"obligation": v["obligation"], "key": v["key"], "detail": v["detail"], "history": v["history"], "source": "explore worker %d" % d["worker"]})
@@ -759,6 +832,8 @@ def run_check(tier, seed):
         ob = classify(c, mtext, minfo)
         k = match_known(known, ob, c["key"], c["detail"])
         rec = {"property": "C10", "obligation": ob, "query": c["key"], "detail": c["detail"], "source": c["source"], "seed": seed, "tier": tier, "expected_from": minfo.get("expected_from", ""), "expected": strip(minfo.get("expected")), "got": strip(minfo.get("got")), "where": minfo.get("where", ""), "original_ops": n0, "minimised_ops": n1, "script": mtext, "replay_cmd": "python3 /verif/check.py C10 --replay <this file>"}
+        if "policy=os" in mtext:
+            rec["schedule"] = "threads scheduled by the operating system (stress sub-check): the replay is repeated until the violation shows (it did after %s of at most 20 tries); see DESIGN.md 3.7b" % minfo.get("os_tries", "?")
         if k:
             known_hits.append((k, rec))
             continue
@@ -829,6 +904,7 @@ def sweep_candidate(v, d):
 MIRI_RESULT = {"stats": None}
 FRESH = {"compared": 0, "distinct_keys": 0}
 HOT = {"stats": None}
+STRESS = {"workers": []}
 
 
 def write_evidence(tier, seed, t0, explore, sweeps, hashres, det_ok, det_n, cross_compared, cross_keys_multi, confirmed, known_hits, build_s, harness):
@@ -882,6 +958,7 @@ def write_evidence(tier, seed, t0, explore, sweeps, hashres, det_ok, det_n, cros
         "refinement_checks_from_ym_vs_new": tot("r_checks") + sum(s["evaluations"] for s in sweeps),
         "value_handle_evaluations": tot("handle_evaluations"),
         "hot_key_sweep": HOT["stats"],
+        "stress_sub_check_os_scheduled": {"workers": len(STRESS["workers"]), "runs": sum(d["runs"] for d in STRESS["workers"]), "evaluations_compared": sum(d["cold_comparisons"] for d in STRESS["workers"]), "wall_s_per_worker": max([d["wall_s"] for d in STRESS["workers"]] + [0]), "note": "threads released together, no baton; not deterministic; findings are confirmed by repeated replay"},
         "fresh_process_sample": {"evaluations_compared_with_the_same_query_alone_in_a_new_process": FRESH["compared"], "distinct_keys": FRESH["distinct_keys"]},
         "cross_process": {"pool_keys_seen_in_2plus_processes": cross_keys_multi, "comparisons": cross_compared, "processes": len(explore)},
         "fault_kinds_fired": {
@@ -971,8 +1048,8 @@ def replay_file(path):
     viol = {"obligation": "P" if rec["obligation"] == "P" else ("R" if rec["obligation"] == "R" else "A"), "key": rec["query"], "detail": rec.get("detail", "")}
     if rec["obligation"] == "P":
         viol["detail"] = (rec.get("got") or {}).get("text", "") or rec.get("detail", "")
-    good, info = shows(sim, rec["script"], viol)
-    res = sim.replay(rec["script"], log=True)
+    good, info = shows(sim, rec["script"], viol, tries=40)
+    res = info.get("res") if good and "policy=os" in rec["script"] else sim.replay(rec["script"], log=True)
     print(rec["script"], end="")
     for l in res["raw"].splitlines():
         if not l.startswith("L ") or len(res["log"]) < 200:
